@@ -179,6 +179,8 @@ def found_block(h: int, npool: int, exclude_known: bool = True, only_known: bool
             return False
         if mw.coinstate is not served:
             return False
+        if cm.last_known_valid_coinstate is not served:
+            return False          # the node's rollback point follows the validated mined block
         kinds = [k for (k, _, _) in events]
         if kinds.count("broadcast") != 1 or kinds.count("save") != 1 or kinds.count("flush") < 1:
             return False
@@ -197,6 +199,131 @@ def found_block(h: int, npool: int, exclude_known: bool = True, only_known: bool
     return check_found, {"now1": base + 5000, "now2": base + 5001, "pts": base + 2000, "nonce": 1, "v0": 10, "v2": 10, "f0": 1, "f1": 2}
 
 
+def broadcast_reaches_all(twin: bool = False, real: bool = False):
+    """The real NetworkManager.broadcast_block with several active peers of which one fails while sending (its socket is
+    already gone): every other active peer still gets the block, whatever the position and the kind of failure."""
+    W = World(real=real, networking=True, served_head="P")
+    from symlib import nodeshell as ns
+    import skepticoin.networking.messages as ms
+
+    def check_broadcast(bad: int, exc: int, inactive: int) -> bool:
+        """
+        post: _
+        """
+        if not (0 <= bad <= 3 and 0 <= exc <= 2 and 0 <= inactive <= 3):
+            return True
+        if not real:
+            W._install_crypto()
+        lp = ns.make_node()
+        lp.chain_manager.coinstate = W.state([5, 6, 7, 8])
+        peers = [ns.connect_peer(lp, "10.0.0.%d" % (i + 1), 1000 + i, "INCOMING" if i % 2 else "OUTGOING") for i in range(4)]
+        got: List[int] = []
+        for i, p in enumerate(peers):
+            def send(m, prev_header=None, i=i):
+                if i == bad:
+                    raise [ValueError("Invalid file descriptor: -1"), KeyError("fd"), OSError("Bad file descriptor")][exc]
+                got.append(i)
+            p.send_message = send
+        peers[inactive].hello_received = (inactive == bad)       # one peer has not completed the greeting (unless it is the failing one)
+        try:
+            lp.network_manager.broadcast_block(W.P)
+        except Exception:
+            return False
+        if twin:
+            return False
+        for i, p in enumerate(peers):
+            active = p.hello_sent and p.hello_received
+            if i != bad and active and got.count(i) != 1:
+                return False
+            if not active and i in got:
+                return False
+        return True
+
+    return check_broadcast, {"bad": 1, "exc": 0, "inactive": 3}
+
+
+def stale_candidate(twin: bool = False, real: bool = False):
+    """Two miner processes: miner 0 gets a candidate on head P; a competing block becomes the head; miner 1 asks for work (the
+    watcher refreshes its state); then miner 0's nonce wins. The found block does not extend the head any more - it still
+    becomes part of the served state, is stored and broadcast."""
+    W = World(real=real, networking=True, served_head="P")
+    from symlib import nodeshell as ns
+    dt, cons = W.dt, W.cons
+    import skepticoin.wallet as wl
+
+    def check_stale(now1: int, now2: int, nonce: int) -> bool:
+        """
+        post: _
+        """
+        if not (2001 <= now1 <= now2 < 2 ** 31 and 0 <= nonce < 2 ** 32):
+            return True
+        if not real:
+            W._install_crypto()
+            from symlib.stubs.oracles import LRO
+            W.dt.sha256d = LRO(0x07)
+        state = W.state([5, 6, 7, 8])
+        lp = ns.make_node()
+        cm = lp.chain_manager
+        cm.coinstate = state
+        cm.last_known_valid_coinstate = state
+        cm.transaction_pool = []
+        wallet = wl.Wallet({W.keys[2].public_key: b"k2", W.keys[1].public_key: b"k1", W.keys[0].public_key: b"k0"},
+                           [W.keys[1].public_key, W.keys[0].public_key], {W.keys[2].public_key: "reserved for potentially mined block"})
+        mw, mining = _watcher(W, ns, lp, wallet)
+        mw.send_queues = [_Queue(), _Queue()]
+        events: List[Any] = []
+        lp.network_manager.broadcast_block = lambda b: events.append(("broadcast", b))
+        lp.disk_interface.save_block = lambda b: events.append(("save", b))
+        lp.disk_interface.flush_blocks = lambda: events.append(("flush", None))
+        saved = (mining.time, mining.save_wallet, getattr(mining, "print", None), mining.Decimal)
+
+        class _Dec:
+            def __init__(self, x: Any):
+                pass
+
+            def __rtruediv__(self, other: Any) -> int:
+                return 0
+        clock = [now1]
+        mining.time, mining.save_wallet, mining.print, mining.Decimal = (lambda: clock[0]), (lambda w: None), (lambda *a, **k: None), _Dec
+        try:
+            mw.handle_request_scrypt_input_message(0, nonce)
+            summary0, height0 = mw.send_queues[0].items[-1][1]
+            # a competing block on the same parent arrives from the network and becomes the head
+            cbx = W.env.coinbase(W.h, [dt.Output(1, W.keys[3])], tok(TX, 30))
+            rival = W.candidate(state, [cbx], now1, bid=tok(BLK, 11), nonce=77)
+            cm.set_coinstate(state.add_block(rival, now1))
+            mw.handle_request_scrypt_input_message(1, nonce)
+            clock[0] = now2
+            try:
+                mw.handle_scrypt_output_message(0, cons.construct_summary_hash(summary0, height0))
+                raised = False
+            except Exception:
+                raised = True
+        finally:
+            mining.time, mining.save_wallet, mining.Decimal = saved[0], saved[1], saved[3]
+            if saved[2] is None:
+                del mining.print
+            else:
+                mining.print = saved[2]
+        if twin:
+            return raised
+        if raised:
+            return False
+        blocks = [b for (k, b) in events if b is not None]
+        if not blocks:
+            return False
+        blk = blocks[0]
+        served = cm.coinstate
+        if blk.previous_block_hash != W.P.hash() or blk.hash() not in served.block_by_hash:
+            return False
+        if rival.hash() not in served.block_by_hash or served.current_chain_hash != rival.hash():
+            return False           # the block that arrived first stays the head (equal height)
+        kinds = [k for (k, _) in events]
+        return kinds.count("broadcast") == 1 and kinds.count("save") == 1 and kinds.count("flush") >= 1
+
+    return check_stale, {"now1": 5000, "now2": 5001, "nonce": 1}
+
+
 def obligations(tier: str, known: List[str]) -> List[Ob]:
     thorough = tier == "thorough"
     T = 1500 if thorough else 600
@@ -211,6 +338,8 @@ def obligations(tier: str, known: List[str]) -> List[Ob]:
                           {"h": h, "npool": npool, "exclude_known": excl}, timeout=T))
     t = twin_of(obs[0], timeout=300)
     obs.append(t)
+    obs.append(Ob("broadcast-reaches-every-active-peer", C_ADOPT, "broadcast_reaches_all", {}, timeout=T))
+    obs.append(Ob("found-block-on-a-parent-that-is-no-longer-the-head", C_ADOPT, "stale_candidate", {}, timeout=T))
     # the listed finding, identified by its input class: validator clock at least 30 s behind the head's timestamp
     obs.append(Ob("finding[clock<=head.ts-30]", C_VALID, "found_block", {"h": 2, "npool": 0, "exclude_known": False, "only_known": True},
                   expect="refuted", role="finding", finding_key=KEY_CLOCK, timeout=300))
